@@ -359,6 +359,32 @@ def run_rank_matrix(ctx, res, props):
             res.findings.append(Finding("ranks:" + v["signature"], v["detail"], {"engine": "e1-scenario", "scenario": scen}))
 
 
+def whowas_scenario():
+    """one nickname used by twelve sessions in a row, ended in every way (QUIT, close, reset, mid-line, KILL, renaming
+    away): every one of them leaves its WHOWAS record, however long the history gets"""
+    acts = [["connect", {"nick": "keeper", "user": "kp"}], ["act", 1, {"verb": "OPER", "name": "root", "password": "rootpw"}]]
+    cid = 1
+    kinds = ["QUIT", "close", "rst", "midline", "KILL", "rename", "QUIT", "close", "KILL", "rename", "rst", "QUIT"]
+    for i, how in enumerate(kinds):
+        cid += 1
+        acts.append(["connect", {"nick": "rover", "user": "u%02d" % i}])
+        if i % 3 == 0:
+            acts.append(["act", cid, {"verb": "JOIN", "chans": ["#rv"]}])
+        if how == "QUIT":
+            acts.append(["act", cid, {"verb": "QUIT"}])
+        elif how == "KILL":
+            acts.append(["act", 1, {"verb": "KILL", "nick": "rover", "comment": "again"}])
+        elif how == "rename":
+            acts.append(["act", cid, {"verb": "NICK", "nick": "moved%d" % i}])
+        else:
+            acts.append(["end", cid, how])
+        if i in (7, 9, 11):
+            acts.append(["act", 1, {"verb": "WHOWAS", "nick": "rover"}])
+    acts.append(["act", 1, {"verb": "WHOWAS", "nick": "rover", "count": 3}])
+    acts.append(["act", 1, {"verb": "LUSERS"}])
+    return {"engine": "e1", "variant": {"preconf": False}, "actions": acts}
+
+
 _GENERIC_DONE = set()
 
 
@@ -369,7 +395,7 @@ def run_generic(ctx, res, skip=()):
     the property it belongs to."""
     binary, hooks = ctx.binary()
     for name, scen in (("big", big_scenario), ("ranks", rank_matrix_scenario), ("twins", case_twin_scenario),
-                       ("prefixtwins", prefix_twin_scenario)):
+                       ("prefixtwins", prefix_twin_scenario), ("whowas", whowas_scenario)):
         if name in skip or (ctx.prop, name) in _GENERIC_DONE:
             continue
         _GENERIC_DONE.add((ctx.prop, name))
@@ -384,3 +410,23 @@ def run_generic(ctx, res, skip=()):
             if ctx.prop in v["props"]:
                 res.findings.append(Finding("%s:%s" % (name, v["signature"]), v["detail"][:600],
                                             {"engine": "e1-scenario", "scenario": sc}))
+
+
+def run_rename_storms(ctx, res, prefix):
+    """simultaneous renames of members of one channel to one nickname (half of them queued behind an OPER that holds the
+    state lock): one winner, one announcement, everybody listed once under the nickname it now has"""
+    import multiprocessing
+    from .. import storm
+    binary, hooks = ctx.binary()
+    sjobs = [(binary, hooks, s, 2000 if hooks else 0, None, None, 25 if ctx.quick else 150, ctx.quick, ["rename"])
+             for s in ctx.seeds(8, "renamestorm")]
+    with multiprocessing.Pool(8) as pool:
+        souts = pool.map(storm.worker, sjobs)
+    for o in souts:
+        res.evaluations += o["rounds"]
+        res.extra["rename_storm_rounds"] = res.extra.get("rename_storm_rounds", 0) + o["rounds"]
+        for sig, detail in o["findings"]:
+            res.findings.append(Finding(prefix + sig, detail, {"engine": "storm"}))
+        if o["inconclusive"]:
+            res.inconclusive += 1
+            res.inconclusive_notes.append(o["inconclusive"])
